@@ -5,20 +5,14 @@ import json, os, re, sys
 V = os.path.dirname(os.path.dirname(os.path.abspath(__file__)))
 WHY = {
  "C01-m2": "by design: the per-step error (<= 5e-5 relative on one slow eigenvalue) is inside the property's conditioning allowance; it shows only after ~10^4 steps, the kernels explore 3-4",
- "C03-m3": "srs_frf is outside the claim (interp1d and magnitudes of complex symbolic values)",
  "C04-m1": "C04 does not claim complex matrices; the change is caught by C11 (sparse read of a big-endian complex matrix)",
  "C04-m2": "scipy.sparse inputs are outside the claim (SciPy's COO internals cannot carry symbolic values)",
- "C04-m3": "writer-side layout choice at exactly 65536 rows needs a matrix of symbolic shape; the non-BIGMAT kernel assumes the documented domain (rows <= 65535). The reader side of that boundary is covered by C11's tall ASCII kernel",
  "C06-m1": "cbcheck (effective-mass bookkeeping on eigh/pinv of concrete models, report printing) is outside the claim",
- "C06-m3": "uset_convert / rbgeom_uset work on pandas tables; outside the claim",
- "C10-m3": "the G2 line fit inside fdepsd is outside the claim (claimed: findap, binify, dofde kernels)",
  "C13-m1": "wtdmig/rddmig (pandas index machinery) are outside the claim",
  "C13-m2": "wtcoordcards/rdcord2cards (DataFrame based) are outside the claim",
  "C14-m1": "spherical branch (atan2/sin/cos of symbolic values) is outside the claim",
- "C14-m3": "mkusetcoordinfo (A-B-C construction through pandas-indexed tables) is outside the claim",
  "C18-m1": "make_uset (pandas construction of the table) is outside the claim; the claim starts from a USET table",
  "C18-m3": "locate.mat_intersect searches byte views of concrete arrays; no symbolic encoding in reach",
- "C19-m1": "psd.area (log / power of symbolic values) is outside the claim",
 }
 
 
